@@ -123,6 +123,23 @@ CHECKS["C13"] = dict(
     design="§4 C13",
     note="Partial: cross-process/hash-seed independence cannot be a solver variable (checked by digest comparison, stated as such). " + TRUST)
 
+CHECKS["C03"] = dict(
+    text="Lockstep refinement against the reference VM: programs = base | builder slot x memo | builder slot x memo | opcode under test "
+         "(30 opcodes incl. every call-making one) | observer. Builder kinds (20 x 20) and base depth are solver-partitioned with an "
+         "exhaustiveness certificate and the memo/observer choices enumerated inside each cell; a second family runs the same obligation "
+         "from a hidden base whose depths are unbounded symbolic ints (real Interpreter.run and real pickle._Unpickler on hidden-prefix "
+         "stacks). Oracle: every import / invocation / setstate / persistent-id event of the VM occurs at least as often when the "
+         "decompiled source is executed against the same inert stubs. Unsupported operations must be refused.",
+    technique="CrossHair+z3: solver-partitioned program cells + hidden-base symbolic depths; reference-VM event log vs executed decompile",
+    design="§4 C03/C05")
+CHECKS["C05"] = dict(
+    text="Same lockstep family as C03 with the value oracle (canonical result of the executed decompiled source equals the reference "
+         "VM's, and the source must execute), plus plain data: 34 shapes x boundary leaves pickled by CPython's pickler at protocols "
+         "0-5 must decompile and evaluate to an equal value of the same types. Recorded defects (FROZENSET text, same-name imports, no-op "
+         "mutation of builtin values) are listed in known_findings.json and re-confirmed on every run.",
+    technique="CrossHair+z3: solver-partitioned program cells + hidden-base symbolic depths; canonical value equality vs reference VM; plain-data round trip",
+    design="§4 C03/C05")
+
 NOT_APPLICABLE = {
     "C16": "every observable sits behind zipfile/zlib/torch C-level I/O; symbolic inputs are realised at the first call so the solver has nothing to decide (DESIGN §5); the pickle-level half is covered by C08",
 }
